@@ -495,6 +495,10 @@ class Frames:
             return v
         if k in ("const", "param", "global", "lambda", "closure", "unknown"):
             return v
+        if k == "call" and v[1][0] == "attr" and v[1][2] == "fillna" and (v[2] == (("const", 0),) or dict(v[3]).get("value") == ("const", 0)) and len(v[2]) + len(v[3]) == 1:
+            inner = self._value(v[1][1])
+            if inner[0] in ("col", "gsum", "fill0", "nullable", "where"):
+                return ("fill0", inner) if inner[0] != "fill0" else inner  # <column>.fillna(0): the per-column spelling of frame.fillna({column: 0})
         if k == "call" and v[1][0] == "attr":
             # a method call: the callee attribute is not a column read
             f = ("attr", self._value(v[1][1]), v[1][2])
